@@ -270,9 +270,63 @@ def _expand(repo, caller, stmt, known, caller_names, stack, stats):
         return None
 
 
+def _pred_expr(stmts):
+    """The value of a helper that consists of `if c: return a` steps and a final `return b`, as one expression; None if it has another shape."""
+    stmts = _strip_doc(list(stmts))
+    if not stmts:
+        return None
+    s = stmts[0]
+    if isinstance(s, ast.Return) and s.value is not None and len(stmts) == 1:
+        return s.value
+    if isinstance(s, ast.If) and len(s.body) == 1 and isinstance(s.body[0], ast.Return) and s.body[0].value is not None:
+        rest = _pred_expr(s.orelse if s.orelse else stmts[1:])
+        if rest is None or (s.orelse and len(stmts) > 1):
+            return None
+        a = s.body[0].value
+        if isinstance(a, ast.Constant) and a.value is True:
+            return ast.BoolOp(op=ast.Or(), values=[s.test, rest])
+        if isinstance(a, ast.Constant) and a.value is False:
+            return ast.BoolOp(op=ast.And(), values=[ast.UnaryOp(op=ast.Not(), operand=s.test), rest])
+        return ast.IfExp(test=s.test, body=a, orelse=rest)
+    return None
+
+
+class _PredInliner(ast.NodeTransformer):
+    """Replaces calls of unknown helpers whose value is a single expression (see _pred_expr) inside a condition."""
+
+    def __init__(self, repo, caller, known, stats, depth=0):
+        self.repo, self.caller, self.known, self.stats, self.depth = repo, caller, known, stats, depth
+
+    def visit_Call(self, c):
+        self.generic_visit(c)
+        callee, is_method = _resolve(self.repo, self.caller, c, self.known)
+        if callee is None or self.depth >= MAX_DEPTH:
+            return c
+        try:
+            binds = _bind(callee, c, is_method)
+        except _NoInline:
+            return c
+        e = _pred_expr(clone(list(callee.node.body)))
+        if e is None:
+            return c
+        from .normalize import _Subst
+        # every parameter is replaced by its argument expression (a condition has no place for bindings): only if it is not re-bound in the helper
+        if any(isinstance(w, ast.Name) and isinstance(w.ctx, ast.Store) for w in ast.walk(e)):
+            return c
+        e = _Subst({p: a for p, a in binds}, set()).visit(ast.Expression(body=e)).body
+        self.stats.append((self.caller.ref, callee.ref))
+        return ast.copy_location(e, c)
+
+    def visit_FunctionDef(self, n):
+        return n
+    visit_AsyncFunctionDef = visit_Lambda = visit_ClassDef = visit_FunctionDef
+
+
 def _walk_list(repo, caller, stmts, known, caller_names, stack, stats):
     out = []
     for s in stmts:
+        if isinstance(s, (ast.If, ast.While)) and len(stack) <= MAX_DEPTH:
+            s.test = _PredInliner(repo, caller, known, stats).visit(s.test)
         rep = _expand(repo, caller, s, known, caller_names, stack, stats)
         if rep is not None:
             out.extend(rep)
